@@ -259,6 +259,15 @@ def check(repo: Repo, run: Run) -> None:
             # callable does with the sampled frames is not visible here
             raise AnalysisError(f"feed_generator hands each trace to {sym.pretty(opaque[0].func)[:80]}, a callable chosen at run time: "
                                 f"how the frames are built is not decided")
+    if not one_pass:
+        import ast as _a
+        cs_found = repo.lookup(f"{MOD}.Callstack")
+        lazy_cls = cs_found and cs_found[0] == "class" and any(isinstance(x, _a.FunctionDef) for x in cs_found[2].node.body)
+        if lazy_cls or any(c.func == T("global", ("functools.partial",)) for c in rec.calls):
+            # the frames are resolved by the reported object itself (a property / cached_property of Callstack, a partial bound
+            # at the sample): when, and against which state of the image tables, is not read off feed_generator
+            raise AnalysisError("feed_generator does not build the frames itself: Callstack resolves them (a method or property of "
+                                "the class / a bound partial): how a frame is attributed is not decided")
     run.ob("R4", MOD, "CallstacksParser.feed_generator", "one pass over the sampled frames in order", one_pass,
            "feed_generator does not build the frames by one loop / comprehension over trace.cs_frames, in order", line=fg.lineno)
     if not one_pass:
